@@ -62,8 +62,30 @@ def arc_mib(v):
     return Mib(sorted(ents))
 
 
+def long_mib():
+    """Rows whose names have 10, 127 and exactly 128 sub-identifiers, and names of 129 / 258 / 326 content octets."""
+    iv = values.representative("int")
+    ov = values.representative("octets")
+    b = R + (1,)
+    rows = [b + (5,) * 2, b + (5,) * 119, b + (5,) * 119 + (0,), b + (5,) * 119 + (4294967295,), b + (6,) + (300,) * 61, b + (7,) + (16384,) * 83, b + (8,) + (4294967295,) * 63, b + (9,)]
+    ents = [(UNIVERSE[0], iv.tlv, iv.py)] + [(o, (iv if i % 2 else ov).tlv, (iv if i % 2 else ov).py) for i, o in enumerate(rows)] + [(UNIVERSE[-1], iv.tlv, iv.py)]
+    return Mib(sorted(ents))
+
+
+def sibling_mib(a, b):
+    """Two rows R.1.a.7 < R.1.b whose encodings have the same length although a and b have different widths."""
+    iv = values.representative("int")
+    ov = values.representative("octets")
+    ents = [(UNIVERSE[0], iv.tlv, iv.py), (R + (1, a, 7), ov.tlv, ov.py), (R + (1, b), iv.tlv, iv.py), (R + (1, b, 1), ov.tlv, ov.py), (UNIVERSE[-1], iv.tlv, iv.py)]
+    return Mib(sorted(ents))
+
+
 def mib_for(mask, idx):
     if isinstance(idx, dict):
+        if "long" in idx:
+            return long_mib()
+        if "sib" in idx:
+            return sibling_mib(*idx["sib"])
         return arc_mib(idx["arc"])
     return Mib([ENTRIES[i] for b, i in enumerate(idx) if mask >> b & 1])
 
@@ -281,7 +303,7 @@ def judge(res, case, driver, cfg, mask, base, method, mr, cap, exp, out, tr):
             "caps": [cap],
         }
         for p in probs:
-            res.violation("%s/%s/%s: %s" % (driver, cfg.version, method, _cls(p)), "MIB %s base %s %s(max_rep=%s, cap=%s): %s" % (("around arc %d" % case["idx"]["arc"]) if isinstance(case["idx"], dict) else [rb.oid_str(UNIVERSE[i]) for b, i in enumerate(case["idx"]) if mask >> b & 1], rb.oid_str(base), method, mr, cap, p), small)
+            res.violation("%s/%s/%s: %s" % (driver, cfg.version, method, _cls(p)), "MIB %s base %s %s(max_rep=%s, cap=%s): %s" % (("special MIB %s" % case["idx"]) if isinstance(case["idx"], dict) else [rb.oid_str(UNIVERSE[i]) for b, i in enumerate(case["idx"]) if mask >> b & 1], rb.oid_str(base), method, mr, cap, p), small)
     elif len(res["samples"]) < 2 and len(exp) >= 3:
         res.sample({"driver": driver, "cfg": cfg.name, "base": rb.oid_str(base), "method": method, "max_rep": mr, "cap": cap, "yielded": [g[0] for g in got], "requests": len(tr.requests)})
 
@@ -373,6 +395,29 @@ def gen_cases(tier):
                         "maxreps": [2, 10],
                         "caps": [None] if cfg.version == "v1" else [None, 1],
                     }
+    # long names (127 / 128 sub-identifiers, >= 128 content octets) and equal-length siblings of different arc widths
+    specials = [{"long": 1}]
+    for a, b in itertools.product((128, 200, 300, 16383), (16384, 20000, 2097151)):
+        specials.append({"sib": [a, b]})
+    for a, b in itertools.product((16384, 20000, 2097151), (2097152, 3000000, 268435455)):
+        specials.append({"sib": [a, b]})
+    for driver in ("sync", "async"):
+        for cfg in (Cfg("v2c"), Cfg("v1")):
+            for sp in specials:
+                for method in ("getnext", "getbulk", "fetch"):
+                    if method == "getbulk" and cfg.version == "v1":
+                        continue
+                    yield {
+                        "driver": driver,
+                        "cfg": cfg.describe(),
+                        "idx": sp,
+                        "mask_lo": 0,
+                        "mask_hi": 1,
+                        "bases": [list(R + (1,)), list(R)],
+                        "method": method,
+                        "maxreps": [1, 3, 10],
+                        "caps": [None] if cfg.version == "v1" else [None, 2],
+                    }
     # every max_repetitions value across the INTEGER width boundaries, on a full MIB
     mrs = list(range(1, 301)) + [32767, 32768, 65535, 65536, 8388607, 8388608, 2**31 - 1]
     if thorough:
@@ -407,7 +452,7 @@ def run(tier):
     rec = common.Recorder(PROPERTY, tier, LEVEL, MODULE)
     rec.rule = (
         "every MIB that is a subset of the OID universe (arcs 1,2,127,128,129,200,16383,16384,2097152; a child below a leaf-like node; entries before "
-        "and after the subtree) x 10 bases (root, subtree, node with child, leaf, two multi-octet arcs, absent, last, '1.3', beyond) x {getnext; getbulk max_rep x agent cap; fetch}; subtree roots ending in a sub-identifier at each base-128 width boundary; every max_repetitions 1..300 (thorough 1..1099) and the INTEGER width boundaries on a full MIB "
+        "and after the subtree) x 10 bases (root, subtree, node with child, leaf, two multi-octet arcs, absent, last, '1.3', beyond) x {getnext; getbulk max_rep x agent cap; fetch}; subtree roots ending in a sub-identifier at each base-128 width boundary; rows with names of 127 / 128 sub-identifiers and of >= 128 content octets; sibling rows of equal encoded length but different arc widths; every max_repetitions 1..300 (thorough 1..1099) and the INTEGER width boundaries on a full MIB "
         "x {v1,v2c,v3} through sync and async iterators. Non-trivial = the expected result is non-empty. Quick: 2^10 MIBs (sync), 2^8 (async); thorough: 2^15."
     )
     rec.assume(
